@@ -19,7 +19,7 @@ from ..textgen import Line
 from . import c06
 
 KINDS = ["malformed", "baddirective", "undefref", "malformed$", "unknownkey", "repeatkey", "badkey", "badvalue",
-         "badheader", "missingreq", "missingreq-empty", "surplus"]
+         "badheader", "missingreq", "missingreq-empty", "surplus", "directive$"]
 
 
 def container_at(lines, p):
@@ -87,6 +87,14 @@ def inject(rng, rec, lines, kind):
         c = Line(ind + key + " " + val, **lines[i].info)
         lines[i] = c
         return lines, c, ["syntax"] if kind == "undefref" else ["substsyntax"], ""
+    if kind == "directive$":
+        # the argument of %include / %import is $-substituted like a value: an undefined or malformed reference
+        # there is reported at the directive's line
+        und = rng.random() < 0.5
+        arg = rng.choice(["$undefined_name", "${undefined_name}.conf", "x/$undefined_name"]) if und else \
+            rng.choice(["x$", "${a", "$-", "$(", "a$ b"])
+        c = ins("%s %s" % (rng.choice(["%include", "%import"]), arg))
+        return lines, c, ["syntax"] if und else ["substsyntax"], ""
     if kind == "unknownkey":
         p = rng.randint(0, len(lines))
         T = contT(container_at(lines, p))
